@@ -341,7 +341,8 @@ def make_core(env):
     pykka.ActorRegistry.get_by_class = classmethod(lambda c, actor_class: [_ref])
     tracklist_mod.random = _Random
     config = {"core": {"max_tracklist_length": env.max_len, "restore_state": True,
-                       "data_dir": env.data_dir if hasattr(env, "data_dir") else "/nonexistent"}}
+                       "data_dir": env.data_dir if hasattr(env, "data_dir") else "/nonexistent"},
+              "audio": {"mixer_volume": getattr(env, "cfg_volume", None)}}
     core = Core(config=config, mixer=MixerProxy(), backends=[BackendProxy()], audio=env.audio)
 
     def restore():
